@@ -682,3 +682,83 @@ def check_C19(rep, scr, tier, seed):
     return rep.finish('all pairs of regions over {0,1,255} of length 0..4 (quick: sampled at 4) + aligned/unaligned regions of 8..33 bytes with one differing byte at every position; non-trivial = distinct (function, n, result)',
                       'make -C /verif/coq Properties_C19.vo + harness/check.py C19')
 REGISTRY['C19'] = check_C19
+
+# ------------------------------------------------------------------ C16: qsort_s sorts, bsearch_s finds
+def check_C16(rep, scr, tier, seed):
+    import itertools, random
+    rng = random.Random(seed)
+    impls, constsd, md = setup(rep, scr, ['O1'] + (['O0', 'O3'] if tier == 'thorough' else []))
+    pr = proofs(rep, scr, 'C16')
+    def key4(v, size):   # element whose first min(size,4) bytes encode the key big-endian (memcmp order = numeric order), rest = payload
+        k = min(size, 4); return v.to_bytes(k, 'big') + bytes(rng.randrange(256) for _ in range(size - k))
+    for var, impl in impls.items():
+        consts = constsd[var]
+        cases = []; n = 0
+        # qsort_s: all key patterns over {0,1,2} for small nmemb, random beyond; sizes incl. > 256 and odd
+        for size in (1, 2, 4, 5, 8, 13) + ((255, 256, 257, 300, 513) if True else ()):
+            for nm in range(0, 6 if size > 13 else (7 if tier == 'quick' else 9)):
+                pats = list(itertools.product((0, 1, 2), repeat=nm))
+                if len(pats) > 60: pats = rng.sample(pats, 60 if tier == 'quick' else 400)
+                for pat in pats:
+                    n += 1; data = b''.join(key4(v, size) for v in pat) or b'\0'
+                    cases.append(vlib.Case('q%d' % n, 'qsort_s', [('R', data)], [(0, 0), nm, size, UNK], {'cls': 'qsort', 'nmemb': nm, 'size': size, 'func': 'qsort_s'}))
+            for nm in ((20, 57, 100, 300) if size <= 13 else (12, 40)):
+                for _ in range(2 if tier == 'quick' else 8):
+                    n += 1; data = b''.join(key4(rng.randrange(0, 50 if size > 1 else 7), size) for _ in range(nm))
+                    cases.append(vlib.Case('q%d' % n, 'qsort_s', [('R', data)], [(0, 0), nm, size, UNK], {'cls': 'qsort', 'nmemb': nm, 'size': size, 'func': 'qsort_s'}))
+        # bsearch_s on sorted arrays: every key from below the minimum to above the maximum
+        for size in (1, 4, 7):
+            for nm in range(0, 12 if tier == 'quick' else 24):
+                for rep_ in range(3):
+                    vals = sorted(rng.randrange(0, 9) * 2 + 1 for _ in range(nm))       # odd keys, so even keys are absent
+                    data = b''.join(key4(v, size) for v in vals) or b'\0'
+                    for kv in range(0, 20):
+                        n += 1
+                        cases.append(vlib.Case('b%d' % n, 'bsearch_s', [('R', key4(kv, size)), ('R', data)], [(0, 0), (1, 0), nm, size, UNK],
+                                               {'cls': 'bsearch', 'nmemb': nm, 'size': size, 'vals': vals, 'key': kv, 'func': 'bsearch_s'}))
+        cf = '%s/cases_c16_%s.txt' % (scr.dir, var)
+        with open(cf, 'w') as f:
+            for x in cases: f.write(x.line() + '\n')
+        oi = vlib.run_impl(impl, cf, cases)
+        bs = [x for x in cases if x.func == 'bsearch_s']
+        cfb = cf + '.b'
+        with open(cfb, 'w') as f:
+            for x in bs: f.write(x.line() + '\n')
+        om = vlib.run_model(md, vlib.model_args(consts), cfb)
+        for x in cases:
+            a = oi.get(x.id); m = x.meta
+            rep.evals += 1; rep.count('%s/size=%d/%s' % (x.func, m['size'], var))
+            if a is None: continue
+            rep.nontrivial.add((x.func, m['size'], m['nmemb'], a.ret, var))
+            if len(rep.samples) < 6 and rep.evals % 2503 == 9: rep.samples.append({'case': x.line()[:160], 'impl': a.raw[:160]})
+            fails = []
+            if a.fault != '-': fails.append(('fault', 'access outside nmemb*size bytes: fault at %s' % a.fault))
+            else:
+                rv, bad = a.ret.split(',') if ',' in a.ret else (a.ret, '0')
+                if bad != '0': fails.append(('comparator-args', 'the comparator was called with %s' % ('a foreign context' if int(bad) & 1 else 'a pointer that is not an element of the array / the key')))
+                size, nm = m['size'], m['nmemb']; k = min(size, 4)
+                if x.func == 'qsort_s' and nm > 0:
+                    before = [x.blocks[0][1][i * size:(i + 1) * size] for i in range(nm)]; after = [a.blocks[0][i * size:(i + 1) * size] for i in range(nm)]
+                    if rv != '0': fails.append(('error-return', 'qsort_s returned %s on valid arguments' % rv))
+                    elif sorted(before) != sorted(after): fails.append(('not-a-permutation', 'result is not a permutation of the input elements (nmemb %d, size %d)' % (nm, size)))
+                    elif any(after[i][:k] > after[i + 1][:k] for i in range(nm - 1)): fails.append(('not-sorted', 'result is not ordered by the comparator (nmemb %d, size %d)' % (nm, size)))
+                if x.func == 'bsearch_s':
+                    present = m['key'] in m['vals']
+                    if rv == 'N':
+                        if present and nm > 0: fails.append(('not-found', 'key %d is in the array %s but NULL was returned' % (m['key'], m['vals'])))
+                    else:
+                        blk, off = (rv[1:].split(':') + ['-1'])[:2] if rv.startswith('P') else ('?', '-1'); off = int(off)
+                        if blk != '1' or off < 0 or off % size or off // size >= nm or m['vals'][off // size] != m['key']:
+                            fails.append(('wrong-element', 'returned %s which is not an element equal to key %d' % (rv, m['key'])))
+                    b = om.get(x.id)
+                    if not fails and b is not None and (rv, a.handlers) != (b.ret, b.handlers): rep.mismatches.append((x, a, b, var))
+            for kind, text in fails:
+                rep.violation('%s(%s): %s' % (x.func, var, text), {'key': (x.func, kind), 'property': 'C16', 'function': x.func, 'failure': kind, 'case': x.to_json(), 'case_line': x.line(), 'impl_outcome': a.raw})
+    report_proofs(rep, pr, 'C16')
+    report_mismatches(rep, 'T1 (bsearch_s)')
+    rep.trusted = TRUSTED_COMMON + ['comparator of the drivers: memcmp over the first min(size,4) bytes, checks context and pointer provenance of every call',
+                                    'qsort_s (musl smoothsort) is NOT modelled in Coq in this revision: permutation/order/bounds are examined on the implementation only (partial)']
+    rep.extra['partial'] = 'qsort_s: no theorem yet; bsearch_s: full'
+    return rep.finish('qsort_s: all key patterns over {0,1,2} for nmemb <= 6..8 (sampled above 60 patterns), random arrays up to 300 elements, element sizes 1..513 incl. 255/256/257; bsearch_s: sorted arrays of 0..11 elements x sizes 1,4,7 x 20 keys (present and absent); non-trivial = distinct (function, size, nmemb, result, build)',
+                      'make -C /verif/coq Properties_C16.vo + harness/check.py C16')
+REGISTRY['C16'] = check_C16
